@@ -181,7 +181,7 @@ pub fn prop() -> Prop {
         id: "C09",
         meta: Meta {
             level: "exploration",
-            rule: "seeded histories with backlogs of 90-450 messages over 1-3 filters and QoS mixes, ack pacing none / one / bursts / all, acks injected while the connection is paused busy / caught-up / inflight-full, PUBREC/PUBCOMP pacing, unsolicited and out-of-order acks; window, packet-id uniqueness and close-on-bad-ack judged on every forward at the router/link boundary, resumption judged at quiescent points reached with acks as the only stimulus. A case counts as distinct and non-trivial when its sequence of operation kinds is new and it reached at least one named corner state.",
+            rule: "seeded histories with backlogs of 90-450 messages over 1-3 filters and QoS mixes, ack pacing none / one / bursts / all, acks injected while the connection is paused busy / caught-up / inflight-full, PUBREC/PUBCOMP pacing, unsolicited and out-of-order acks; window, packet-id uniqueness and close-on-bad-ack judged on every forward at the router/link boundary, resumption judged at quiescent points reached with acks as the only stimulus. A case counts as distinct and non-trivial when its sequence of operation kinds is new and it reached at least one named corner state. Plus (S6, real connection task) bursts of 450-950 QoS 0 messages into a full outgoing buffer with a 2 ms delay injected between the router's push of the forwards and of the Unschedule marker: the burst must arrive completely; a profile whose acknowledgement flows span a reconnect; a connection closed right after a batch of solicited acknowledgements is a violation.",
             assumptions: &["router stepped on one thread through verif hooks; link actors use the real LinkTx/LinkRx", "default segment sizes: backlog stays within retention"],
             floors: &[("quiescent-point", 20), ("window", 2000), ("inflight-full", 20), ("resumed-from-inflight-full", 5), ("s6-unschedule-answered-with-ready", 2)],
         },
